@@ -62,9 +62,9 @@ type World struct {
 	FailFastUnknown bool
 	// PeersDelay, when set, delays every topic.Peers() call (network-side latency).
 	PeersDelay func() time.Duration
-	tmp             string
-	fetches         int64
-	closed          bool
+	tmp        string
+	fetches    int64
+	closed     bool
 }
 
 func NewWorld(h *hk.H) *World {
